@@ -76,6 +76,15 @@ CHECKS = {
         "Trusted: the re-spacing mutator only changes runs of blanks between tokens on one line; sources with verbatim regions are excluded from the canonical-form comparison.",
         "DESIGN.md section 5, C14",
     ),
+    "C15": (
+        "differential history monitor: a long-lived CompilerSession driven through seeded edit/query histories, every answer compared with a fresh session on the same directory and overlays",
+        "Seeded histories (6-16 operations) over five interdependent files with valid, syntax-error, type-error, import-added/dropped/doubled, cyclic, non-exhaustive and absent "
+        "variants; operations set_overlay, clear_overlay, write/delete + refresh_disk, overlay equal to disk; queries graph, analyze, reports, coverage, run, evict-then-run, "
+        "analyze on a snapshot, normalized_type. After every query the same query is put to a fresh session and the normalised answers (paths kept, arena identities masked) "
+        "must be equal. Ten scripted histories force the orders the property names. Exploration.",
+        "Trusted: the fresh session as the oracle (its own correctness is the subject of C01-C12), the masking of identifier numbers, refresh_disk after every disk change.",
+        "DESIGN.md section 5, C15",
+    ),
     "C16": (
         "repetition monitor: every (program, command) executed in N independent processes of the real CLI (fresh hash seeds, ASLR) and compared byte for byte",
         "Fixtures, generated accepted programs, rejected programs with one or many reports / unresolved holes and blocks with many independent bindings are run through check, run, "
